@@ -33,6 +33,7 @@ from afkak.common import (
 from afkak.consumer import Consumer
 from afkak.kafkacodec import KafkaCodec
 
+from vlib.sim import wire
 from vlib.sim.contract import ContractClient, fire_next_timer, next_timer
 
 GROUP_ERRORS = {
@@ -76,7 +77,7 @@ class GroupClient(ContractClient):
 
 
 def make_scenario(job, groups):
-    """groups: subset of {'fence', 'progress'}"""
+    """groups: subset of {'fence', 'progress', 'wire'}"""
     K = job["K"]
 
     def run(ctx):
@@ -120,6 +121,9 @@ def make_scenario(job, groups):
         # ------------------------------------------------------------------ request monitor
         def on_request(kind, p):
             ctx.log("req", kind)
+            if "wire" in groups:
+                bad = wire.check_request(ctx, kind, p.args)
+                ctx.check(bad is None, "state-machine-requests-conform-on-the-wire", bad or "")
             if kind == "leave":
                 st["leave_sent"] = True
             if st["stop_called"]:
